@@ -276,3 +276,12 @@ package objectcore
 //@ func checkECPart
 //@   property C24
 //@   ensures [accepted_part_carries_no_session_token_of_either_version] err == nil ==> !partCarriesSessionV1() && !partCarriesSessionV2()
+
+// ---- C03 (every filter set gets an answer): matchValues compares strings; it panics on the
+// absence matcher (its documented precondition) - inside the database transaction of a search
+// that any client can send. Every caller rules the absence matcher out first: an attribute the
+// iteration is positioned by is present in every key it meets, so an absence filter on it simply
+// does not match.
+//@ func matchValues
+//@   property C03
+//@   requires [not_the_absence_matcher] matcher != object.MatchNotPresent
